@@ -74,6 +74,20 @@ def eval_case(case):
         bs = {'t': 'ed25519'} if keys[0] == 'ssh-ed25519' else {'t': 'ed448'}
         hostkeys[keys[0]] = bs
         truth[keys[0]] = {'blob': fakenet.blob_from_spec(bs), 'size': None, 'ca': None}
+    elif kind == 'mixed':
+        # several kinds of host key on one server: every key is rated by its own blob only
+        cspec, ca_type, ca_size = ca_spec(case['ca'])
+        pool = {'ssh-ed25519': ({'t': 'ed25519'}, None, None), 'ssh-ed448': ({'t': 'ed448'}, None, None), 'ecdsa-sha2-nistp256': ({'t': 'ecdsa', 'curve': 'nistp256'}, None, None),
+                'ecdsa-sha2-nistp521': ({'t': 'ecdsa', 'curve': 'nistp521'}, None, None),
+                ED_CERT: ({'t': 'cert', 'kind': ED_CERT, 'ca': cspec}, 256, (ca_type, ca_size)),
+                RSA_CERTS[0]: ({'t': 'cert', 'kind': RSA_CERTS[0], 'bits': case['bits'], 'ca': cspec}, case['bits'], (ca_type, ca_size))}
+        for k in RSA_FAMILY:
+            pool[k] = ({'t': 'rsa', 'bits': case['rsa_bits']}, case['rsa_bits'], None)
+        for k, (bs, size, ca) in pool.items():
+            hostkeys[k] = bs
+        for k in keys:
+            bs, size, ca = pool[k]
+            truth[k] = {'blob': fakenet.blob_from_spec(bs), 'size': size, 'ca': ca, 'rsa_host': k in RSA_FAMILY or k == RSA_CERTS[0], 'plain': ca is None}
     spec = {'kex': [case.get('kex', 'curve25519-sha256')], 'key': keys, 'hostkeys': hostkeys, 'moduli': [2048], 'gex_style': 'roundup'}
     fails = []
     bits = case.get('bits')
@@ -108,7 +122,7 @@ def eval_case(case):
             if g is None:
                 fails.append(['hostkey-missing-from-report', '%s %s' % (rend, k)])
                 continue
-            if t['size'] is not None and (rend == 'text' or k in RSA_FAMILY or k.startswith('ssh-rsa-cert') or g['size'] is not None):
+            if t['size'] is not None and (rend == 'text' or k in RSA_FAMILY or k.startswith('ssh-rsa-cert') or g['size'] is not None) and not (rend == 'json' and k == ED_CERT and g['size'] is None):
                 if g['size'] != t['size']:
                     sig = 'hostkey-size'
                     if kind in ('rsa', 'cert') and case.get('inner', 'rsa') == 'rsa' and odd_bytes and g['size'] == t['size'] + 8:
@@ -132,10 +146,10 @@ def eval_case(case):
             # rating by size (RSA host keys and RSA CAs)
             small, w2k, ec = size_notes(g['notes'])
             want_small, want_w2k = [], False
-            is_rsa_host = kind == 'rsa' or (kind == 'cert' and case['inner'] == 'rsa')
+            is_rsa_host = kind == 'rsa' or (kind == 'cert' and case['inner'] == 'rsa') or (kind == 'mixed' and t.get('rsa_host'))
             if is_rsa_host:
                 if t['size'] < 2048:
-                    want_small.append(('fail', 'hostkey' if kind == 'cert' else '', t['size']))
+                    want_small.append(('fail', 'hostkey' if (kind == 'cert' or (kind == 'mixed' and not t.get('plain'))) else '', t['size']))
                 elif t['size'] < 3072:
                     want_w2k = True
             if t['ca'] is not None and t['ca'][0] == 'ssh-rsa':
@@ -174,6 +188,22 @@ def eval_case(case):
         elif kind == 'ed':
             sha, md5 = wire.fingerprints(truth[keys[0]]['blob'])
             want_fps = [(keys[0], 'SHA256', sha[7:]), (keys[0], 'MD5', md5[4:])]
+        if kind == 'mixed':
+            seen_rsa = False
+            for k in keys:
+                if not truth[k].get('plain'):
+                    continue
+                name = 'ssh-rsa' if k in RSA_FAMILY else k
+                if name == 'ssh-rsa':
+                    if seen_rsa:
+                        continue
+                    seen_rsa = True
+                if rend == 'text' and (name.startswith('ecdsa-') or name == 'ssh-dss'):
+                    sha, md5 = wire.fingerprints(truth[k]['blob'])
+                    want_fps += [(name, 'SHA256', sha[7:]), (name, 'MD5', md5[4:])]
+                    continue
+                sha, md5 = wire.fingerprints(truth[k]['blob'])
+                want_fps += [(name, 'SHA256', sha[7:]), (name, 'MD5', md5[4:])]
         if fps != sorted(want_fps):
             fails.append(['fingerprints', '%s: reported %r, expected %r' % (rend, fps, sorted(want_fps))])
     near = bits is not None and (abs(bits - 2048) <= 128 or abs(bits - 3072) <= 128)
@@ -214,6 +244,19 @@ def run(ctx):
         for hs in host_sizes:
             cases.append({'kind': 'cert', 'inner': 'rsa', 'bits': hs, 'ca': ca, 'keys': name_sets[hs % 3]})
         cases.append({'kind': 'cert', 'inner': 'ed25519', 'ca': ca, 'keys': [ED_CERT]})
+    import itertools as _it
+    pool_names = ['ssh-ed25519', 'ssh-ed448', 'ecdsa-sha2-nistp256', 'ecdsa-sha2-nistp521', ED_CERT, RSA_CERTS[0], 'rsa-sha2-512', 'ssh-rsa']
+    mixed = []
+    for n in (2, 3):
+        for combo in _it.permutations(pool_names, n):
+            if sum(1 for c in combo if c in (ED_CERT, RSA_CERTS[0])) == 0:
+                continue
+            i = len(mixed)
+            mixed.append({'kind': 'mixed', 'keys': list(combo), 'bits': [1024, 2048, 3072][i % 3], 'rsa_bits': [2048, 4096, 1024][i % 3], 'ca': (cas + [{'t': 'rsa', 'bits': 1024}, {'t': 'rsa', 'bits': 2048}, {'t': 'rsa', 'bits': 4096}])[i % 7]})
+    if ctx.quick:
+        ctx.rng.shuffle(mixed)
+        mixed = mixed[:250]
+    cases += mixed
     ctx.map(cases)
     ctx.exhaustive = not q
     ctx.note(rsa_size_grid=len(sizes), explanation='exhaustive flag (thorough): the whole size grid 512..16384 step 64 plus every multiple of 8 within 128 bits of 2048 and 3072')
